@@ -551,7 +551,56 @@ def run(ctx):
     row_prologue_obligations(ctx, r7, "C17.R7")
     rules.append(r7)
     rules.append(_survey_sheet_settings_rule(ctx))
+    # instance-id clashes are refused wherever the clashing rows sit (shared with C09.R3)
+    from . import c09
+    from .c08 import _take
+    r9 = Rule("C17", "C17.R9", "instance-id clashes are refused in every sheet order", floor=10,
+              necessary="a clash found only when the rows are adjacent lets the same instance id through for other orders")
+    _take(r9, c09.run(ctx), "C09.R3", lambda c: c.startswith("_validate_external_instances[") or c.startswith("_generate_instances[choice list vs file clash") or c.startswith("_generate_instances[two files with one stem"))
+    rules.append(r9)
     return rules
+
+
+def eval_choices_block(ctx, rid, rows, clean=True, survey_header=None, settings=None):
+    """Evaluate the choices-sheet block of workbook_to_json (plus the earlier top-level assignments it depends on) on the
+    given sheet rows -> (outcome, message, choices, warnings); outcome is 'ok' / 'warning' / 'error' / 'raises X' / None
+    (block not recognised or not evaluable: callers skip)."""
+    import builtins
+    from ..interp import Obj
+    from ..rowloop import toplevel_slice
+    w2j = ctx.func("pyxform.xls2json:workbook_to_json", rid)
+    blk = next((st for st in w2j.node.body if isinstance(st, ast.If) and isinstance(st.test, ast.Name) and st.test.id == "choices_sheet"
+                and any(isinstance(c, ast.Call) and call_name(c) == "validate_and_clean_choices" for c in ast.walk(st))), None)
+    if blk is None:
+        return None, "the choices block of workbook_to_json was not recognised (if choices_sheet: ... validate_and_clean_choices)", None, None, None
+    option_fields = set(ctx.consts.get("pyxform.question", "OPTION_FIELDS", rid))
+    data = [dict(r_) for r_ in rows]
+    hdr = {}
+    for r_ in data:
+        for k_ in r_:
+            hdr.setdefault(k_, None)
+    wd = Obj(None, {"choices": data, "choices_header": [hdr], "survey_header": survey_header if survey_header is not None else [{"type": None, "name": None, "label": None}],
+                    "survey": [{"type": "text", "name": "q"}]}, name="workbook_dict")
+    warnings = []
+    env = {"choices_sheet": data, "clean_text_values_enabled": clean, "workbook_dict": wd, "option_fields": option_fields, "default_language": "default", "warnings": warnings,
+           "settings": dict(settings or {}), "json_dict": {}, "choices": {}}
+    mod = w2j.module
+
+    def module_has(nm):
+        return hasattr(builtins, nm) or ctx.repo.resolve_name(mod, nm) is not None
+    try:
+        stmts = toplevel_slice(w2j, blk, set(env), module_has)
+    except AnalysisError as e:
+        return None, str(e), None, None, blk
+    it = ctx.interp(rid, hooks={"new:DealiasAndGroupHeadersResult": lambda i, a, k, n: Obj(None, dict(k) if k else {"headers": a[0], "data": a[1]}, name="result")})
+    it.reset([])
+    try:
+        it.exec_block(stmts, env, mod)
+        return ("warning" if warnings else "ok"), " ".join(str(w_) for w_ in warnings), env.get("choices"), warnings, blk
+    except AnalysisError as e:
+        return None, f"the choices block reads state this evaluation does not provide ({e})", None, None, blk
+    except Raised as e:
+        return ("error" if "PyXFormError" in e.mro else f"raises {e.exc_name}{e.exc_args}"), (str(e.exc_args[0]) if e.exc_args else ""), None, warnings, blk
 
 
 def _choices_block_obligations(ctx, rule, rid):
@@ -559,15 +608,7 @@ def _choices_block_obligations(ctx, rule, rid):
     evaluated as a block: a choice without a name or a repeated name is refused with the library's error citing the
     choice's row, a choice without a label gets its row-citing warning - with clean_text_values on AND off (the row
     numbers the messages cite must exist on both paths)."""
-    from ..interp import Obj
     w2j = ctx.func("pyxform.xls2json:workbook_to_json", rid)
-    blk = next((st for st in w2j.node.body if isinstance(st, ast.If) and isinstance(st.test, ast.Name) and st.test.id == "choices_sheet"
-                and any(isinstance(c, ast.Call) and call_name(c) == "validate_and_clean_choices" for c in ast.walk(st))), None)
-    if blk is None:
-        rule.note("the choices block of workbook_to_json was not recognised (if choices_sheet: ... validate_and_clean_choices); block obligations skipped")
-        return
-    option_fields = set(ctx.consts.get("pyxform.question", "OPTION_FIELDS", rid))
-    free = {n.id for n in ast.walk(blk) if isinstance(n, ast.Name) and isinstance(n.ctx, ast.Load)}
     LISTS = {
         "a choice without a name": ([{"list_name": "l", "name": "a", "label": "A"}, {"list_name": "l", "label": "B"}], "error", 3),
         "a repeated choice name": ([{"list_name": "l", "name": "a", "label": "A"}, {"list_name": "l", "name": "b", "label": "B"}, {"list_name": "l", "name": "a", "label": "C"}], "error", 4),
@@ -576,26 +617,10 @@ def _choices_block_obligations(ctx, rule, rid):
     }
     for clean in (True, False):
         for desc, (rows, want, row_no) in LISTS.items():
-            data = [dict(r_) for r_ in rows]
-            hdr = {}
-            for r_ in data:
-                for k_ in r_:
-                    hdr.setdefault(k_, None)
-            wd = Obj(None, {"choices": data, "choices_header": [hdr]}, name="workbook_dict")
-            warnings = []
-            env = {"choices_sheet": data, "clean_text_values_enabled": clean, "workbook_dict": wd, "option_fields": option_fields, "default_language": "default", "warnings": warnings,
-                   "settings": {}, "json_dict": {}, "choices": {}}
-            env = {k: v for k, v in env.items() if k in free or k in ("choices", "json_dict")}
-            it = ctx.interp(rid, hooks={"new:DealiasAndGroupHeadersResult": lambda i, a, k, n: Obj(None, dict(k) if k else {"headers": a[0], "data": a[1]}, name="result")})
-            it.reset([])
-            try:
-                it.exec_block([blk], env, w2j.module)
-                got, msg = ("warning" if warnings else "ok"), " ".join(str(w_) for w_ in warnings)
-            except AnalysisError as e:
-                rule.note(f"the choices block reads state this evaluation does not provide ({e}); block obligations skipped")
+            got, msg, _choices, _w, blk = eval_choices_block(ctx, rid, rows, clean=clean)
+            if got is None:
+                rule.note(f"{msg}; block obligations skipped")
                 return
-            except Raised as e:
-                got, msg = ("error" if "PyXFormError" in e.mro else f"raises {e.exc_name}{e.exc_args}"), str(e.exc_args[0]) if e.exc_args else ""
             ok = got == want and (row_no is None or f"[row : {row_no}]" in msg)
             rule.check(ok, f"choices block[clean_text_values={'yes' if clean else 'no'}; {desc}]", {"error": f"refused with PyXFormError citing row {row_no}", "warning": f"accepted with a warning citing row {row_no}", "ok": "accepted silently"}[want],
                        w2j.loc(blk), why_fail=f"{got}: {msg[:120]}")
